@@ -31,6 +31,35 @@ ENGINE = "driver"
 H6 = ("NoConflictProposal", "NoConflictSent", "RecoveredState")
 
 
+class _Later:
+    """Broken machinery in one section must not hide a divergence another section observed on the real code:
+    the first Broken is remembered and raised only if the run ends without any VIOLATION (audit 5d)."""
+    err = None
+
+    def __enter__(self):
+        return self
+
+    def __exit__(self, t, e, tb):
+        if t is not None and issubclass(t, vlib.Broken):
+            if self.err is None:
+                self.err = e
+            vlib.log("deferred until the verdict: %s" % str(e).splitlines()[0])
+            return True
+        return False
+
+
+def _retrying(fn, *a, **kw):
+    """One retry when TLC ended without any verdict (JVM killed from outside, transient I/O): such a failure
+    says nothing about the specification or the code."""
+    try:
+        return fn(*a, **kw)
+    except vlib.Broken as e:
+        if not any(t in str(e) for t in ("TLC failed on", "TLC simulate failed", "produced no behaviours")):
+            raise
+        vlib.log("TLC ended without a verdict, retrying once: %s" % str(e).splitlines()[0])
+        return fn(*a, **kw)
+
+
 def _trace_retry(ctx, *a, **kw):
     """tlc_trace, repeated once when TLC produced no verdict at all (e.g. the JVM was killed from outside)."""
     ok, res = ctx.tlc_trace(*a, **kw)
@@ -71,6 +100,7 @@ def run(ctx):
         return ctx.finish("model_checking", "replay of one recorded behaviour")
 
     thorough = not ctx.quick()
+    later = _Later()
     only = os.environ.get("VERIF_C13_ONLY", "")     # development aid, never set by registered commands
     tier = "thorough" if thorough else "quick"
     # The model the behaviours are generated from follows known_findings.json, never the tree under test:
@@ -83,21 +113,23 @@ def run(ctx):
         with open(os.path.join(vlib.VERIF, "spec", "consensus", cfg)) as f:
             return {cfg: f.read().replace("LogOwnProposal = FALSE", "LogOwnProposal = TRUE")}
 
-    if not only or "tlc" in only:
-        r = ctx.tlc_check("consensus", "MCDriver.tla", "Driver_fixed_p_quick.cfg", timeout=2400, coverage=thorough)
+    with later:
+      if not only or "tlc" in only:
+        r = _retrying(ctx.tlc_check, "consensus", "MCDriver.tla", "Driver_fixed_p_quick.cfg", timeout=2400, coverage=thorough)
         if "coverage" in r:
             vlib.require_actions_covered(r, ignore=("Init",))
-        ctx.tlc_check("consensus", "MCDriver.tla", "Driver_faithful_np_quick.cfg", timeout=2400)
+        _retrying(ctx.tlc_check, "consensus", "MCDriver.tla", "Driver_faithful_np_quick.cfg", timeout=2400)
         if thorough:
             for cfg in ("Driver_fixed_p_thorough.cfg", "Driver_faithful_np_thorough.cfg", "Driver_fixed_r1_thorough.cfg"):
-                ctx.tlc_check("consensus", "MCDriver.tla", cfg, timeout=2400)
-        r = ctx.tlc_check("consensus", "MCDriver.tla", "Driver_faithful_p.cfg", timeout=1200, expect_violation=True)
+                _retrying(ctx.tlc_check, "consensus", "MCDriver.tla", cfg, timeout=2400)
+        r = _retrying(ctx.tlc_check, "consensus", "MCDriver.tla", "Driver_faithful_p.cfg", timeout=1200, expect_violation=True)
         if r["ok"] or r["violated"] not in H6:
             raise vlib.Broken("the faithful proposer model was expected to exhibit H6 (one of %s), TLC says: %s"
                               % (H6, r["violated"]))
         ctx.coverage["faithful_model_exhibits"] = "H6 via " + str(r["violated"])
 
-    if not only or "replay" in only:
+    with later:
+      if not only or "replay" in only:
         nruns = 6 if thorough else 1
         depth = 200 * (120 if thorough else 45)
         jobs = [(cfg, shift, i) for cfg, shift in SIMS for i in range(nruns)]
@@ -105,7 +137,7 @@ def run(ctx):
 
         def sim(job):
             cfg, shift, i = job
-            return shift, ctx.tlc_simulate("consensus", "DriverMBT.tla", cfg, depth=depth,
+            return shift, _retrying(ctx.tlc_simulate, "consensus", "DriverMBT.tla", cfg, depth=depth,
                                            seed=ctx.seed * 1000 + i, timeout=2400, files=sim_files(cfg))
         by_shift = {shift: [] for _, shift in SIMS}
         by_shift["long"] = []
@@ -131,7 +163,8 @@ def run(ctx):
         ctx.coverage["behaviours_generated"] = total
 
     # ------------------------------------------------------------------ concurrency (code -> spec)
-    if not only or "conc" in only:
+    with later:
+      if not only or "conc" in only:
         payload = {"cfg": dict(CFG, propShift=1), "me": 2, "runs": 6 if thorough else 1, "lives": 3,
                    "perLife": 1500 if thorough else 700}
         res = ctx.run_engine(binary, "TestDriverConcurrent", payload, timeout=1500)
@@ -178,7 +211,7 @@ def run(ctx):
         "FFI stubs: consensus/driver links the vm package; the driver never calls it (a call would abort)",
         "no quorum of future-height precommits is delivered (TriggerSync / block fetcher are outside this property)",
     ]
-    return ctx.finish(
+    rc = ctx.finish(
         "model_checking",
         "TLC exhaustive on Driver.tla (4 validators, one round, <= 4-5 inputs, a crash before/after every effect, "
         "<= 2 crashes) for the repaired design in the proposer role and the code as it is in the non-proposer role; "
@@ -187,3 +220,6 @@ def run(ctx):
         "real state machine + real WAL store comparing every effect, the durable log after each crash and the "
         "machine state; a behaviour is non-trivial when it contains at least one broadcast (all do); crashes per "
         "effect kind are counted in crash_before_*")
+    if later.err is not None and rc == 0:
+        raise later.err
+    return rc
